@@ -156,6 +156,9 @@ def register(reg):
                    "C01.a-typed-list-becomes-a-proxy-of-this-configuration": "implies(truthy(self.field) and not typeis(self.field, 'ref:AnyField') and result is not value,"
                                                                              " exact_class(result, 'ListProxy') and fresh(result) and result.cfg is cfg and result.list_field is self)",
                    "C01.an-untyped-list-is-kept-as-it-is": "implies(not truthy(self.field) or typeis(self.field, 'ref:AnyField'), result is value)",
+                   "C01+C13.only-the-list-this-configuration-already-holds-for-this-field-is-returned-as-it-is":
+                       "implies(truthy(self.field) and not typeis(self.field, 'ref:AnyField') and result is value,"
+                       " typeis(value, 'ref:ListProxy') and value.cfg is cfg and has(cfg._data, self._key) and get(cfg._data, self._key) is value)",
                },
                raises={"C06+C13.a-rejected-list-changes-no-existing-object": KEEP})
     # ---------------------------------------------------------------- typed dict construction / bulk update from a dict (C01, C06, C17)
